@@ -124,6 +124,9 @@ def run(ctx):
     R.reused_buffer_rule(ctx, "C11.R6", "noodles_fastq::io::reader::record::read_record", "record::Record::",
                          ["definition_mut", "sequence_mut", "quality_scores_mut"], owner_param=2)
 
+    ctx.rule("C11.R9", "ragged files are rejected: every iteration of the indexer's line loop compares the line's geometry with the first line's")
+    ragged_line_rule(ctx, "C11.R9")
+
     ctx.rule("C11.R7", "A10 append-buffer discipline: FASTA/FASTQ readers and indexers reset (or deliberately accumulate into) their buffers")
     a10.discipline_rule(ctx, "C11.R7", r"^<?noodles_(fasta|fastq)::(io|r#async)", 26)
 
@@ -173,3 +176,46 @@ def _root(f, op, depth=0):
         l = nl
         depth += 1
     return l
+
+
+def ragged_line_rule(ctx, rule):
+    """ragged files are rejected rather than mis-indexed: in the indexer's line loop every iteration that goes on to the next line has
+    compared THIS line's geometry with the first line's (an Eq/Ne comparison with one operand from each consume_sequence_line
+    result). A way around the comparison (e.g. `continue` for blank lines) lets a line of another width into the regular grid the
+    index describes: every base behind it is looked up at the wrong offset."""
+    fb = ctx.fb
+    key = "noodles_fasta::io::indexer::Indexer::<R>::index_record"
+    f = ctx.anchor(rule, key)
+    if f is None:
+        return
+    lines = [(b, c) for b, c in f.calls() if re.search(r"Indexer::<R>::consume_sequence_line$", c.get("f") or "")]
+    loops = C.natural_loops(f)
+    inloop = [(b, c) for b, c in lines if any(b in body for _h, body in loops)]
+    first = [(b, c) for b, c in lines if not any(b in body for _h, body in loops)]
+    if len(inloop) != 1 or len(first) != 1:
+        ctx.violation(rule, "%s/ANCHOR-MISSING/%s/lines" % (rule, key), "expected one consume_sequence_line before and one inside the line loop "
+                      "(found %d / %d)" % (len(first), len(inloop)), f.loc())
+        return
+    from .. import a10
+    lb, lc = inloop[0]
+    cur = a10._derived_from(f, lc["dest"][0])
+    exp = a10._derived_from(f, first[0][1]["dest"][0]) - cur
+    body = set().union(*[bd for _h, bd in loops if lb in bd])
+    gates = set()
+    for b, kind, ops, t_t, f_t in R._cmp_switches(f):
+        if b in body and kind in ("Eq", "Ne"):
+            ls = [C.op_local(o) for o in ops]
+            if any(l in cur for l in ls) and any(l in exp for l in ls):
+                gates.add(b)
+    if not gates:
+        ctx.violation(rule, "%s/no-geometry-comparison/%s" % (rule, key), "the line loop no longer compares a line's geometry with the first line's", f.loc(lb))
+        return
+    nxt = lc.get("t")
+    cyc = nxt is not None and lb in C.reachable(f, nxt, removed=gates) and nxt not in gates
+    if cyc:
+        ctx.violation(rule, "%s/line-skips-geometry-check/%s" % (rule, key),
+                      "index_record can go from one sequence line to the next without comparing the line's base count / width with the first "
+                      "line's: a line of another length (a blank line in mid-sequence) is accepted into the regular grid and every base after it "
+                      "is fetched from the wrong offset", f.loc(lb))
+    else:
+        ctx.ok(rule, key + " :: every iteration of the line loop passes a geometry comparison", "%d comparison switch(es) with one operand from each line" % len(gates), f.loc(lb))
